@@ -111,6 +111,7 @@ def parseOp (j : Json) : Except String (Op CQ) := do
   | "append" => do pure (.append (← fldN j "c") (← fldNs j "hs"))
   | "copy" => do pure (.copy (← fldN j "h") (← optDT j "dt"))
   | "neg" => do pure (.neg (← fldN j "h"))
+  | "deepcopy" => do pure (.deepcopy (← fldN j "h"))
   | "binop" => do pure (.binop (← parseBinOp j) (← fldN j "a") (← parseOperand j))
   | "inplace" => do pure (.inplace (← parseBinOp j) (← fldN j "a") (← parseOperand j))
   | "storeFrame" => do pure (.storeFrame (← fldN j "h"))
